@@ -45,6 +45,9 @@ CLAIMED["C18"] = ("exploration", "exhaustive enumeration of all multigraphs up t
 CLAIMED["C20"] = ("exploration", "crossed enumeration of pattern-length pairs x pattern step x pattern_start x multiplier x report step for the demand metrics (incl. a DD simulation per case), fixed-pattern synthetic tables for the resilience / pump formulas, and boundary-value enumeration of every lookup-table midpoint for the economic metrics",
     "every combination of the alphabets is evaluated with the real metric functions and compared with 5-10 line reference formulas written from the docstrings; lookup tables are probed at, just below and just above every midpoint between consecutive entries",
     "one open known finding (annual_network_cost treats the percentage efficiency as a fraction); values between alphabet points are not covered")
+CLAIMED["C13"] = ("exploration", "deviation-bounded exhaustive enumeration of a rich model family (base model + every single deviation, named element x control pairs, thorough: all compatible pairs) and all example networks; four round-trip paths compared as JSON-normalised dictionaries",
+    "every model of the family is converted with to_dict, re-created through from_dict / write_json+read_json / from_dict(append=empty) and a second trip, and the normalised dictionaries must be equal key by key (the first differing path is reported)",
+    "attributes the catalogue does not set away from their defaults are only covered at their defaults")
 NOT_YET = "check not built yet in this session (work in progress, see DESIGN.md section 4)"
 
 
